@@ -240,8 +240,16 @@ class Arr:
             f = {"BitAnd": z3.And, "BitOr": z3.Or, "BitXor": z3.Xor}[op]
             return elementwise(ex, lambda a, b: f(_bool(a), _bool(b)), args, "bool", node)
         if op in ("Add", "Sub", "Mult"):
-            f = {"Add": lambda a, b: a + b, "Sub": lambda a, b: a - b, "Mult": lambda a, b: a * b}[op]
-            return elementwise(ex, f, args, "real", node)
+            g = {"Add": lambda a, b: a + b, "Sub": lambda a, b: a - b, "Mult": lambda a, b: a * b}[op]
+            f = lambda a, b: g(_num(a), _num(b))
+            res = elementwise(ex, f, args, "real", node)
+            # dtype: an operand of dtype bool does not widen the other operand's dtype
+            other_ = args[1] if args[0] is self else args[0]
+            if isinstance(other_, Arr) and other_.kind == "bool" and self.kind != "bool":
+                res.dtype = self.dtype
+            elif isinstance(other_, Arr) and self.kind == "bool" and other_.kind != "bool":
+                res.dtype = other_.dtype
+            return res
         if op == "Div":
             return elementwise(ex, lambda a, b: a / b, args, "real", node)
         return NotImplemented
@@ -290,6 +298,15 @@ def _same_mask(a, b):
 
 def _bool(x):
     return z3.BoolVal(x) if isinstance(x, bool) else x
+
+
+def _num(x):
+    """numeric reading of an element (bool -> 0/1)"""
+    if isinstance(x, bool):
+        return z3.RealVal(int(x))
+    if isinstance(x, z3.BoolRef):
+        return z3.If(x, z3.RealVal(1), z3.RealVal(0))
+    return x
 
 
 def _freeze(arr):
@@ -631,6 +648,12 @@ class Poly:
             return ndim(self.shape)
         if attr == "KEY_OFFSET":
             return 59
+        if attr == "indeterminants":
+            ind = Poly(ex.ctx, self.base + "_indet", names=self.names, region=Region("fresh", "indeterminants"))
+            ind.indeterminants_of = self
+            return ind
+        if attr == "allocation":
+            return getattr(self, "allocation", None)
         if attr == "flags":
             return {"OWNDATA": self.owndata}
         return V.BoundMethod(self, attr)
@@ -1058,3 +1081,135 @@ def install_clean(reg):
         if isinstance(a, ExpMat) and kw.get("return_counts") is True and kw.get("axis") == 0:
             return (object(), UniqueCounts(a))
         raise U("numpy.unique in this form", node)
+
+
+# ====================================================================== pieces used by align.py
+class SymDict:
+    """{tuple(exponent): coefficient for ...} built over a symbolic sequence: n entries, key(t): Mono, val(t): Arr.
+    Lookup goes through a ghost function fnd: Mono -> Int (-1 when absent; the LAST entry with an equal key otherwise)."""
+    is_dict = True
+
+    def __init__(self, ex, n, key, val, D):
+        from .sortmodel import meq
+        ctx = ex.ctx
+        self.n, self.key, self.val, self.D = n, key, val, D
+        self.fnd = ctx.func("dictfind", Mono, I)
+        m = z3.Const(ctx.fresh("m"), Mono)
+        f = self.fnd
+        ctx.assume(z3.ForAll([m], z3.And(f(m) >= -1, f(m) < n), patterns=[f(m)]))
+        ctx.assume(z3.ForAll([m], z3.Implies(f(m) >= 0, meq(key(f(m)), m, D)), patterns=[f(m)]))
+        t = z3.Int(ctx.fresh("t"))
+        ctx.assume(z3.ForAll([m, t], z3.Implies(z3.And(0 <= t, t < n, meq(key(t), m, D)), f(m) >= t),
+                             patterns=[z3.MultiPattern(f(m), key(t))]))
+
+    def sx_getattr(self, ex, attr, node):
+        return V.BoundMethod(self, attr)
+
+    def sx_method(self, ex, attr, args, kw, node):
+        if attr == "get" and len(args) == 2 and isinstance(args[0], MonoRow) and isinstance(args[1], Arr):
+            k, default = args
+            src = self.fnd(k.m)
+            dflt = _freeze(default)
+            probe = self.val(z3.IntVal(0))
+            vals = self.val
+            a = Arr(default.shape, lambda i: z3.If(src == -1, dflt(i), vals(src).elem(i)), "real", default.dtype, Region("fresh"))
+            a.dict_src = (self, src)
+            return a
+        raise U(f"dict.{attr} on a symbolic dictionary", node)
+
+
+def _make_dict(ex, r, node):
+    """dict comprehension / dict() over a symbolic sequence of (MonoRow, Arr) pairs"""
+    seq = V.as_seq(ex, r, node)
+    probe = seq.item(z3.Int(ex.ctx.fresh("probe")))
+    if isinstance(probe, tuple) and len(probe) == 2 and isinstance(probe[0], MonoRow) and isinstance(probe[1], Arr):
+        return SymDict(ex, seq.n, lambda t: seq.item(t)[0].m, lambda t: seq.item(t)[1], probe[0].D)
+    raise U("dict over this kind of symbolic sequence", node)
+
+
+class UniqueRows:
+    """ghost data of numpy.unique(rows, axis=0): pos(t) = index of input row t in the result"""
+
+    def __init__(self, pos, src):
+        self.pos, self.src = pos, src
+
+
+def unique_rows(ex, X):
+    from .sortmodel import meq, lexle
+    ctx = ex.ctx
+    M = ctx.int("M")
+    G = ctx.func("urow", I, Mono)
+    pos = ctx.func("upos", I, I)
+    src = ctx.func("usrc", I, I)
+    ctx.assume(z3.And(M >= 0, M <= X.n, (M == 0) == (X.n == 0) if not isinstance(X.n, int) else z3.BoolVal(True)))
+    ctx.assume(ctx.forall_range(0, X.n, lambda t: z3.And(0 <= pos(t), pos(t) < M, meq(X.row(t), G(pos(t)), X.D)),
+                                pat=lambda t: pos(t)))
+    ctx.assume(ctx.forall_range(0, M, lambda g: z3.And(0 <= src(g), src(g) < X.n, G(g) == X.row(src(g)), pos(src(g)) == g),
+                                pat=lambda g: src(g)))
+    ctx.assume(ctx.forall_range2(0, M, lambda g, h: z3.And(z3.Not(meq(G(g), G(h), X.D)), G(g) != G(h),
+                                                           lexle(G(g), G(h), X.D, z3.BoolVal(True)))))
+    U_ = ExpMat(M, X.D, lambda g: G(g), Region("fresh"), X.dtype)
+    U_.unique_of = (X, UniqueRows(pos, src))
+    ex.last_unique = U_
+    return U_
+
+
+def install_align(reg):
+    ax = reg.axiom
+    prev_zeros = reg.fn["numpy.zeros"]
+    prev_unique = reg.fn["numpy.unique"]
+    reg.make_dict = _make_dict
+
+    @ax("numpy.broadcast_shapes")
+    def broadcast_shapes(ex, args, kw, node):
+        shapes = [a.term for a in args if isinstance(a, ShapeV)]
+        if len(shapes) != len(args) or not shapes:
+            raise U("broadcast_shapes of these values", node)
+        site = ex.site("broadcast_shapes")
+        s = shapes[0]
+        for t in shapes[1:]:
+            ex.oblige(f"pre({site}).broadcastable", bok(s, t), "precondition", node,
+                      note="numpy.broadcast_shapes raises ValueError otherwise")
+            s = bshape(s, t)
+        return ShapeV(s)
+
+    @ax("numpy.vstack")
+    def vstack(ex, args, kw, node):
+        mats = V.iterate(ex, args[0], node)
+        if not mats or not all(isinstance(m, ExpMat) for m in mats):
+            raise U("vstack of these values", node)
+        site = ex.site("vstack")
+        D = mats[0].D
+        for m in mats[1:]:
+            ex.oblige(f"pre({site}).equal_width", m.D == D, "precondition", node)
+        total = mats[0].n
+        offs = [0]
+        for m in mats[1:]:
+            offs.append(total)
+            total = total + m.n
+        X = ex.ctx.func("vstack", I, Mono)
+
+        def rec(k, t):
+            tt = t if k == 0 else t - offs[k]
+            if k == len(mats) - 1:
+                return mats[k].row(tt)
+            return z3.If(t < offs[k] + mats[k].n, mats[k].row(tt), rec(k + 1, t))
+        tq = z3.Int(ex.ctx.fresh("t"))
+        ex.ctx.assume(z3.ForAll([tq], X(tq) == rec(0, tq), patterns=[X(tq)]))
+        out = ExpMat(total, D, lambda t: X(t), Region("fresh"), mats[0].dtype)
+        out.stack_of = (mats, offs)
+        return out
+
+    @ax("numpy.unique")
+    def unique(ex, args, kw, node):
+        a = args[0]
+        if isinstance(a, ExpMat) and kw.get("axis") == 0 and not kw.get("return_counts"):
+            return unique_rows(ex, a)
+        return prev_unique(ex, args, kw, node)
+
+    @ax("numpy.zeros")
+    def zeros(ex, args, kw, node):
+        shp = args[0]
+        if isinstance(shp, tuple) and len(shp) == 2 and not (isinstance(shp[0], int) and shp[0] == 1):
+            return ExpMat(shp[0], shp[1], lambda t: mono_zero, Region("fresh"), as_dtype(ex, kw.get("dtype", "float64"), node))
+        return prev_zeros(ex, args, kw, node)
